@@ -68,6 +68,7 @@ type Exec struct {
 	usedExterns   map[string]bool
 	boxes         map[int]*Value // box identity term id -> boxed (non-pointer) value
 	allocBases    map[int]bool   // term ids of allocation frontiers
+	discoverFresh map[int]bool   // refs allocated during the running write-set discovery
 	globalFacts   []*Term        // definitional facts about fresh constants (hold on every path)
 }
 
@@ -363,9 +364,13 @@ func (ex *Exec) execBlock(fr *Frame, b *ssa.BasicBlock, st *State, edges map[edg
 			return
 		case *ssa.Return:
 			var res []*Value
-			for _, r := range in.Results {
-				res = append(res, ex.eval(fr, st, r))
+			vars := map[string]*Value{}
+			for i, r := range in.Results {
+				rv := ex.eval(fr, st, r)
+				res = append(res, rv)
+				vars[fmt.Sprintf("$r%d", i)] = rv
 			}
+			ex.atObligations(fr, st, "return", in, vars)
 			fr.rets = append(fr.rets, retState{st: st, results: res})
 			return
 		case *ssa.Panic:
@@ -465,6 +470,9 @@ func (ex *Exec) loopWrites(fr *Frame, li *loopInfo, st *State) *writeSet {
 	// heap: dry run of the body from a state where everything the loop may
 	// touch is unknown
 	saved := ex.discover
+	if saved == nil {
+		ex.discoverFresh = map[int]bool{}
+	}
 	ex.discover = ws
 	savedRegs := map[ssa.Value]*Value{}
 	for k, v := range fr.regs {
